@@ -79,6 +79,7 @@ def norm_scenario(p: dict) -> dict:
     for key in ("x0", "x0c", "off"):
         sc[key] = [dict(x) for x in seq(sc[key])]
     sc["srcs"] = [str(x) for x in seq(sc["srcs"])]
+    sc["fitk"] = bool(sc.get("fitk", True))
     sc["prot"] = [{"dur": int(s["dur"]), "A": dict(s["A"])} for s in seq(sc["prot"])]
     return {"sc": sc, "kin": p["kin"], "As": seq(p["As"]), "data": [seq(g) for g in seq(p["data"])],
             "pred": [seq(g) for g in seq(p["pred"])], "generated": bool(p["generated"]),
@@ -130,6 +131,8 @@ def build(scn: dict):
         kw["data"] = pd.Series({names[i]: float(fr(scn["data"][0][i])) for i in range(n)})
         p_true = {f"k{i + 1}": float(sc["jt"][i]) for i in range(n)}
         p_cand = {f"k{i + 1}": float(sc["jc"][i]) for i in range(n)}
+        if not sc.get("fitk", True):          # p0 holds only initial values
+            p_true, p_cand = {}, {}
         for i in fitted:
             p_true[names[i]] = x0[i]
             p_cand[names[i]] = x0c[i]
@@ -145,6 +148,8 @@ def build(scn: dict):
     kw["data"] = pd.DataFrame({names[i]: [float(fr(v)) for v in scn["data"][i]] for i in range(n)}, index=times)
     p_true = {f"k{i + 1}": sc["jt"][i] * LN2 for i in range(n)}
     p_cand = {f"k{i + 1}": sc["jc"][i] * LN2 for i in range(n)}
+    if not sc.get("fitk", True):              # p0 holds only initial values
+        p_true, p_cand = {}, {}
     for i in fitted:
         p_true[names[i]] = x0[i]
         p_cand[names[i]] = x0c[i]
